@@ -26,6 +26,10 @@ pub enum Op {
     RefSegment(u8),
     PrefixList(u8),
     PrefixGet(u8),
+    /// direct indices (sample, contig), taken modulo the archive's counts
+    ContigAt(u16, u16),
+    RangeAt(u16, u16, u32, u32),
+    LengthAt(u16, u16),
 }
 
 #[derive(Clone, Debug, Hash, Serialize, Deserialize)]
@@ -104,6 +108,21 @@ pub fn apply(d: &mut Decompressor, n: &Names, op: &Op) -> Res {
                     _ => 4_000_000,
                 };
                 stable_hash(&d.get_reference_segment(gid).map_err(|_| ())?)
+            }
+            Op::ContigAt(si, ci) => {
+                let si = *si as usize % n.samples.len();
+                let cn = &n.contigs[si][*ci as usize % n.contigs[si].len()];
+                stable_hash(&d.get_contig(&n.samples[si], cn).map_err(|_| ())?)
+            }
+            Op::RangeAt(si, ci, a, b) => {
+                let si = *si as usize % n.samples.len();
+                let cn = &n.contigs[si][*ci as usize % n.contigs[si].len()];
+                stable_hash(&d.get_contig_range(&n.samples[si], cn, *a as usize, *b as usize).map_err(|_| ())?)
+            }
+            Op::LengthAt(si, ci) => {
+                let si = *si as usize % n.samples.len();
+                let cn = &n.contigs[si][*ci as usize % n.contigs[si].len()];
+                stable_hash(&d.get_contig_length(&n.samples[si], cn).map_err(|_| ())?)
             }
             Op::PrefixList(p) => {
                 let pre = match p % 3 {
@@ -279,7 +298,18 @@ pub fn check_in(ctx: &Ctx, case: &HistCase, counters: &std::cell::Cell<(u64, u64
             }
         }
     }
-    for seq in enumerated.iter().chain(case.sequences.iter()) {
+    // (1b) structure-aware sequences: pairs of segment occurrences that share a stored entry
+    // (same group and in-group id - preferably in opposite orientations), the same group with
+    // another id, or the same id in another group, queried back to back on one handle. A cache
+    // keyed by too little (orientation, group or id left out) answers the second query from the first.
+    let targeted = e.facts.as_ref().map(|f| targeted_sequences(f)).unwrap_or_default();
+    if targeted.1 {
+        rep.labels.push("targeted:shared-entry-opposite-orientation");
+    }
+    if !targeted.0.is_empty() {
+        rep.labels.push("targeted:shared-entry-pairs");
+    }
+    for seq in enumerated.iter().chain(targeted.0.iter()).chain(case.sequences.iter()) {
         if let Some(m) = run_sequence(seq, &mut fresh_of, &mut rep) {
             return Report { verdict: Verdict::Fail(m), ..rep };
         }
@@ -348,6 +378,91 @@ pub fn check_in(ctx: &Ctx, case: &HistCase, counters: &std::cell::Cell<(u64, u64
     rep
 }
 
+/// (sequences, an opposite-orientation pair exists)
+fn targeted_sequences(f: &crate::agcref::ArchiveFacts) -> (Vec<Vec<Op>>, bool) {
+    #[derive(Clone, Copy)]
+    struct Occ {
+        s: usize,
+        c: usize,
+        start: usize,
+        end: usize,
+        group: u32,
+        id: u32,
+        rc: bool,
+    }
+    let k = f.k as usize;
+    let mut occ: Vec<Occ> = Vec::new();
+    for (si, s) in f.contigs.iter().enumerate().take(130) {
+        for (ci, (_, descs, _)) in s.iter().enumerate().take(8) {
+            let mut pos = 0usize;
+            for (i, d) in descs.iter().enumerate() {
+                let contributes = if i == 0 { d.raw_len as usize } else { (d.raw_len as usize).saturating_sub(k) };
+                let (start, end) = (pos, pos + contributes);
+                pos = end;
+                if end > start {
+                    occ.push(Occ { s: si, c: ci, start, end, group: d.group, id: d.in_group, rc: d.rc });
+                }
+            }
+        }
+    }
+    let mut pairs: Vec<(Occ, Occ, u8)> = Vec::new();
+    // priority 0: same entry, opposite orientation; 1: same entry; 2: same group, other id; 3: same id, other group
+    for (i, a) in occ.iter().enumerate() {
+        for b in occ.iter().skip(i + 1) {
+            if a.s == b.s && a.c == b.c && a.start == b.start {
+                continue;
+            }
+            let pr = if a.group == b.group && a.id == b.id {
+                if a.rc != b.rc {
+                    0
+                } else {
+                    1
+                }
+            } else if a.group == b.group {
+                2
+            } else if a.id == b.id && a.group >= 16 && b.group >= 16 {
+                3
+            } else {
+                continue;
+            };
+            pairs.push((*a, *b, pr));
+            if pairs.len() > 4000 {
+                break;
+            }
+        }
+        if pairs.len() > 4000 {
+            break;
+        }
+    }
+    let opposite = pairs.iter().any(|p| p.2 == 0);
+    let mut chosen: Vec<(Occ, Occ, u8)> = Vec::new();
+    for pr in 0..4u8 {
+        let quota = [16usize, 8, 8, 6][pr as usize];
+        chosen.extend(pairs.iter().filter(|p| p.2 == pr).take(quota).copied());
+    }
+    let win = |o: &Occ, shift: usize| -> (u32, u32) {
+        let len = o.end - o.start;
+        let a = o.start + (shift % len.max(1)).min(len.saturating_sub(1));
+        let b = (a + 1 + len / 2).min(o.end);
+        (a as u32, b as u32)
+    };
+    let mut seqs: Vec<Vec<Op>> = Vec::new();
+    for (j, (a, b, _)) in chosen.iter().enumerate() {
+        let (a0, a1) = win(a, j);
+        let (b0, b1) = win(b, j * 3);
+        let ra = Op::RangeAt(a.s as u16, a.c as u16, a0, a1);
+        let rb = Op::RangeAt(b.s as u16, b.c as u16, b0, b1);
+        let ca = Op::ContigAt(a.s as u16, a.c as u16);
+        let cb = Op::ContigAt(b.s as u16, b.c as u16);
+        seqs.push(vec![ra.clone(), rb.clone(), ra.clone()]);
+        seqs.push(vec![rb.clone(), ra.clone()]);
+        seqs.push(vec![ca.clone(), rb.clone(), cb.clone()]);
+        seqs.push(vec![rb.clone(), ca.clone(), Op::LengthAt(b.s as u16, b.c as u16)]);
+        seqs.push(vec![cb, ra, ca, rb]);
+    }
+    (seqs, opposite)
+}
+
 fn op_strategy() -> impl Strategy<Value = Op> {
     prop_oneof![
         1 => Just(Op::ListSamples),
@@ -362,6 +477,9 @@ fn op_strategy() -> impl Strategy<Value = Op> {
         2 => (0u8..3).prop_map(Op::RefSegment),
         1 => (0u8..3).prop_map(Op::PrefixList),
         1 => (0u8..3).prop_map(Op::PrefixGet),
+        2 => (any::<u16>(), any::<u16>()).prop_map(|(s, c)| Op::ContigAt(s, c)),
+        3 => (any::<u16>(), any::<u16>(), 0u32..3000, 0u32..3000).prop_map(|(s, c, a, b)| Op::RangeAt(s, c, a, b)),
+        1 => (any::<u16>(), any::<u16>()).prop_map(|(s, c)| Op::LengthAt(s, c)),
     ]
 }
 
@@ -395,7 +513,7 @@ pub fn replay(ctx: &Ctx, _stage: &str, case: &Value) -> Report {
 pub const INFO: PropInfo = PropInfo {
     id: "C08",
     level: "exploration",
-    rule: "cases = (archive from a small generated collection, a quarter of them with > 50 samples i.e. two metadata batches; 2..8 random operation sequences of length 4..12). On every archive ALL sequences of length 1 and 2 over a 20-operation alphabet {list_samples, list_contigs, get_sample, get_contig, get_contig_range, get_contig_length, get_contig_segments_desc, get_all_segments, get_group_statistics, get_reference_segment, get_samples_by_prefix} x {existing, other existing, unknown} arguments and all sequences of length 3 over 10 of them are run on a new handle each (1420 sequences), then the random ones; for half of the cases the random sequences also run concurrently on handles cloned with clone_for_thread. Oracle: every operation's outcome (value hash, or 'is an error') equals the outcome of the same operation on a fresh handle; a panic anywhere is a violation; a concurrently running clone must behave exactly as the same sequence run alone. Non-trivial = the case contains a miss after a hit, a success after a failed operation, or a whole-table query after a per-sample query; distinct = distinct case. Counts of sequences and operations are reported as operation_sequences / operations.",
+    rule: "cases = (archive from a small generated collection, a quarter of them with > 50 samples i.e. two metadata batches; 2..8 random operation sequences of length 4..12). On every archive ALL sequences of length 1 and 2 over a 20-operation alphabet {list_samples, list_contigs, get_sample, get_contig, get_contig_range, get_contig_length, get_contig_segments_desc, get_all_segments, get_group_statistics, get_reference_segment, get_samples_by_prefix} x {existing, other existing, unknown} arguments and all sequences of length 3 over 10 of them are run on a new handle each (1420 sequences); then structure-aware sequences built from the archive's own descriptor table (read by the independent decoder): up to 38 pairs of segment occurrences that share a stored entry (same group and in-group id, opposite orientations first), the same group with another id, or the same id in another group, whose ranges / whole contigs are queried back to back on one handle (5 sequences per pair); then the random ones (which also address any sample / contig by index); for half of the cases the random sequences also run concurrently on handles cloned with clone_for_thread. Oracle: every operation's outcome (value hash, or 'is an error') equals the outcome of the same operation on a fresh handle; a panic anywhere is a violation; a concurrently running clone must behave exactly as the same sequence run alone. Non-trivial = the case contains a miss after a hit, a success after a failed operation, or a whole-table query after a per-sample query; distinct = distinct case. Counts of sequences and operations are reported as operation_sequences / operations.",
     assumptions: &["error values are compared as 'is an error', not by message"],
     needs_cli: true,
     needs_checked: false,
